@@ -37,7 +37,7 @@ def fileFault : File.Fault → String
   | .nullDeref => "fault:nullDeref"
 
 def logStr (log : List (Nat × Bytes)) : String :=
-  if log.isEmpty then "-" else " ".intercalate (log.map fun (o, b) => s!"{o}:{b.length}")
+  if log.isEmpty then "-" else ",".intercalate (log.map fun (o, b) => s!"{o}:{b.length}")
 
 /-- run a stream over several `run` calls (segments) -/
 def runSegs (s : Modes.Stream) : List (List Block) → List (List Block)
